@@ -241,4 +241,13 @@ def run(repo, chk, tier):
         raise AnalysisError("S-enum: only %d grid points" % n)
     check_l_restriction(repo, chk)
     check_qr_selector(repo, chk, tier)
+    # the coupling -> helicity map is built from cg_coef: exact values for integer and half-integer spins, negative
+    # projections included (shared with C12); per-decay options must not leak from one decay to the next
+    from .c12 import cg_sq
+    from .c12_coef import check_cg_coef
+
+    check_cg_coef(repo, chk, "quick", cg_sq)
+    from ..cacheown import check_mutable_defaults
+
+    check_mutable_defaults(repo, chk, ["tf_pwa/config_loader/decay_config.py", "tf_pwa/particle.py", "tf_pwa/amp/core.py"])
     chk.info("not decided: rank of the unselected LS->helicity map for spins above 2, ls_selector=weight, float-valued spins in the QR selector (run-time arithmetic), removal of chains without allowed couplings")
